@@ -787,6 +787,42 @@ def r01_6e_normalize(ctx):
     ctx.require_min("R01.6e", 10)
 
 
+# accessors whose name is the long form of their field member's name (confirmed by reading: CurrentApplicationID / ...Address)
+ACCESSOR_RENAMES = {("Global", "current_application_id"): "current_app_id", ("Global", "current_application_address"): "current_app_address"}
+
+
+def r01_16_field_accessors(ctx):
+    ctx.rule("R01.16", "a transaction / global accessor reads the field it is named after: every method of TxnObject and Global that builds its expression from one member of TxnField / GlobalField uses the member of its own name, and no two members of a field enumeration carry the same TEAL field name")
+    n = 0
+    for cname, module, enum in (("TxnObject", "pyteal.ast.txn", "TxnField"), ("Global", "pyteal.ast.global_", "GlobalField")):
+        c = ctx.model.find_class(cname, module)
+        for nm, f in c.methods.items():
+            members = sorted({x.attr for x in ast.walk(f.node) if isinstance(x, ast.Attribute) and isinstance(x.value, ast.Name) and x.value.id == enum})
+            if len(members) != 1:
+                continue
+            n += 1
+            want = ACCESSOR_RENAMES.get((cname, nm), nm)
+            ctx.check(members[0] == want, "R01.16", f"{cname}.{nm}", f"{cname}.{nm}() reads {enum}.{members[0]}; it is the accessor of {enum}.{want}", f.where, fact={"field": members[0]})
+    q.need(n >= 70, f"only {n} single-field accessors found in TxnObject / Global")
+    # field names are unique inside an enumeration
+    from sa.tables import field_enum
+
+    for ename in ("TxnField", "GlobalField", "AccountParamField", "VoterParamField", "BlockField"):
+        try:
+            rows = field_enum(ctx.model, ename)
+        except AnalysisError:
+            continue
+        seen = {}
+        for member, row in rows.items():
+            name = row.get("name")
+            if name in seen:
+                ctx.bad("R01.16", f"{ename}.{member}:name", f"{ename}.{member} and {ename}.{seen[name]} both carry the TEAL field name `{name}`: one of the two accessors reads the other's field", ctx.model.find_class(ename).where)
+            else:
+                seen[name] = member
+                ctx.instances["R01.16"] = ctx.instances.get("R01.16", 0) + 1
+    ctx.require_min("R01.16", 100)
+
+
 def run(ctx):
     r01_3_wiring(ctx)
     r01_1_operands(ctx)
@@ -797,6 +833,10 @@ def run(ctx):
     r01_13_is_terminal(ctx)
     r01_4e_flatten_traces(ctx)
     r01_14_compile_subroutine(ctx)
+    r01_16_field_accessors(ctx)
+    from rules import c04 as _c04c
+
+    _c04c.r04_5_final_sweep(ctx)  # an expression that needs an op the program version lacks is refused, not emitted (shared with C04)
     from rules import c04 as _c04b
 
     _c04b.r04_4_immediates(ctx)  # a constant operand is written as an immediate only where it fits the encoding; otherwise the stack form denotes the same value (shared with C04)
